@@ -538,7 +538,7 @@ class FnEmit:
         if op == 'store':
             p.eat('volatile'); p.eat('atomic')
             e, ty = s.typed(p); p.expect(','); pe, pty = s.typed(p)
-            s.emit('VP_ACCESS(%s, sizeof(*%s));' % (pe, pe))
+            s.emit('VP_ACCESS_W(%s, sizeof(*%s));' % (pe, pe))
             s.emit('*%s = %s;' % (pe, e)); return
         if op == 'getelementptr':
             p.eat('inbounds'); base = p.type(); p.expect(',')
@@ -597,6 +597,7 @@ class FnEmit:
             return
         if op in ('call', 'invoke'):
             s.call(p, dst, op == 'invoke', label, phimap); return
+        if op in ('fence', 'cmpxchg', 'atomicrmw'): raise NotImplementedError('atomic instruction (%s): the frame-condition argument for C20 does not cover code that synchronises' % op)
         raise NotImplementedError('instr %s: %s' % (op, ln))
 
     def retdefault(s):
@@ -679,12 +680,12 @@ class FnEmit:
                 # short constant-length byte copies (e.g. the 3-byte U+FFFD substitute at a symbolic cursor): explicit byte assignments; CBMC's
                 # built-in memcpy at a symbolic offset ran the propositional reduction out of memory (measured: cleanup_utf8, 2 input bytes, > 6 GB)
                 ln = int(re.search(r'(\d+)ULL', a[2]).group(1))
-                s.emit('VP_ACCESS(%s, %s); VP_ACCESS(%s, %s);' % (a[0], a[2], a[1], a[2]))
+                s.emit('VP_ACCESS_W(%s, %s); VP_ACCESS(%s, %s);' % (a[0], a[2], a[1], a[2]))
                 s.emit('{ uint8_t *d_ = (uint8_t *)%s; const uint8_t *s_ = (const uint8_t *)%s; uint8_t t_[%d]; %s %s }' % (
                     a[0], a[1], max(ln, 1), ' '.join('t_[%d] = s_[%d];' % (i, i) for i in range(ln)), ' '.join('d_[%d] = t_[%d];' % (i, i) for i in range(ln))))
                 return None
             if const_len:
-                s.emit('VP_ACCESS(%s, %s);' % (a[0], a[2]))
+                s.emit('VP_ACCESS_W(%s, %s);' % (a[0], a[2]))
                 if kind != 'memset': s.emit('VP_ACCESS(%s, %s);' % (a[1], a[2]))
                 return '%s(%s, %s, %s)' % (kind, a[0], a[1], a[2])
             def origin(k):
@@ -923,6 +924,7 @@ def translate(ll_text, roots, stubs=(), allow_aborts=(), ub=False, src_name='<ir
     H = []
     H.append('/* generated by /verif/engine/ir2c.py from %s (sha1 %s) */' % (src_name, key[:12]))
     H.append('#include "vp_rt.h"')
+
     for n in m.types:
         if not isinstance(m.types[n], OpaqueT): H.append('struct %s;' % cname(n))
     defs = {}
@@ -993,9 +995,29 @@ def translate(ll_text, roots, stubs=(), allow_aborts=(), ub=False, src_name='<ir
             C.append('/* extern */ %s %s(%s%s);' % (E.cty(d.ret), E.sym(n), ', '.join(E.cty(t) for t in d.params) or ('void' if not d.vararg else ''), ', ...' if d.vararg and d.params else ''))
             E.info['externals'].append(n)
     C.extend(gl_c)
+    # frame condition over module-level mutable state (C20): snapshot / compare every mutable global that the translated code can reach
+    mg = [n for n in E.info['mutable_globals']]
+    C.append('/* mutable module-level objects reachable from the roots: %s */' % (', '.join(mg) or 'none'))
+    C.append('const int vp_n_mutable_globals = %d;' % len(mg))
+    for k, n in enumerate(mg):
+        ct = E.cty(m.globals[n][0]) if not isinstance(E.resolve(m.globals[n][0]), OpaqueT) else 'char'
+        C.append('static %s vp_gsnap_%d;' % (ct, k))
+    C.append('#ifdef __CPROVER__')
+    C.append('void vp_globals_snapshot(void) { %s }' % ' '.join('vp_gsnap_%d = %s;' % (k, cname(n)) for k, n in enumerate(mg)))
+    C.append('int vp_globals_unchanged(void) { int ok = 1; %s return ok; }' % ' '.join(
+        '{ const unsigned char *a_ = (const unsigned char *)&vp_gsnap_%d, *b_ = (const unsigned char *)&%s; for (unsigned i_ = 0; i_ < sizeof(vp_gsnap_%d); i_++) if (a_[i_] != b_[i_]) ok = 0; }' % (k, cname(n), k) for k, n in enumerate(mg)))
+    C.append('#endif')
     C.append('\n\n'.join(fn_c))
+    E.info['_mg'] = mg
     E.info['throws'] = sorted(E.info['throws'])
-    return {'h': '\n'.join(H) + '\n', 'c': '\n'.join(C) + '\n', 'info': E.info}
+    mg = E.info.pop('_mg', [])
+    nat = ('static const char *const vp_mg_names[] = { %s 0 }; static const unsigned vp_mg_sizes[] = { %s 0 };\n' % (
+               ''.join('"%s", ' % n for n in mg), ''.join('sizeof(%s), ' % (E.cty(m.globals[n][0]) if not isinstance(E.resolve(m.globals[n][0]), OpaqueT) else 'char') for n in mg)) +
+           '#define vp_globals_snapshot() ((void)vp_nat_globals(vp_mg_names, vp_mg_sizes, %d, 0))\n#define vp_globals_unchanged() vp_nat_globals(vp_mg_names, vp_mg_sizes, %d, 1)\n#define vp_n_mutable_globals %d' % (len(mg), len(mg), len(mg)))
+    H.extend(['#ifdef __CPROVER__', 'void vp_globals_snapshot(void); int vp_globals_unchanged(void); extern const int vp_n_mutable_globals;', '#else',
+              'int vp_nat_globals(const char *const *names, const unsigned *sizes, int n, int mode);', nat, '#endif'])
+    htext = '\n'.join(H) + '\n'
+    return {'h': htext, 'c': '\n'.join(C) + '\n', 'info': E.info}
 
 def root_cty(E, ty):
     if isinstance(ty, PtrT): return 'void*'
